@@ -114,6 +114,124 @@ theorem rho_graphSTab (n : Nat) (A : Adj) (hsym : ∀ i j, i < n → j < n → A
   rw [hn0] at hcov
   rw [hcov, hgauge]
 
+/-! ### `_graph_to_density_pure`: `create_n_plus_state(n)` followed by one `apply_cz` per edge -/
+
+/-- `create_n_plus_state(n)`: the Kronecker product of `n` copies of `|+⟩⟨+| = [[½,½],[½,½]]` — every entry is `2⁻ⁿ` -/
+noncomputable def plusMat (n : Nat) : Matrix (Bits n) (Bits n) ℂ := fun _ _ => (1 / 2 : ℂ) ^ n
+
+theorem pexp_Xq (n k : Nat) (c : Bits n) : pexp n (Xq k) c = 0 := by
+  unfold pexp
+  rw [sumTo_congr n _ (fun _ => 0) (fun j _ => by simp [Xq, sFun, Bool.toInt']), sumTo_zero]
+  rfl
+
+/-- the partial products `∏_{m<k} (1 + X_m)/2`: all entries between basis states that agree from bit `k` on are `2⁻ᵏ`, the others vanish -/
+theorem rhoTo_plus (n k : Nat) (hk : k ≤ n) (a c : Bits n) :
+    rhoTo n (fun i => Xq i) k a c = if (∀ m : Fin n, k ≤ m.val → a m = c m) then (1 / 2 : ℂ) ^ k else 0 := by
+  induction k generalizing a c with
+  | zero =>
+    show (1 : Matrix (Bits n) (Bits n) ℂ) a c = _
+    rw [Matrix.one_apply]
+    by_cases h : a = c
+    · subst h; simp
+    · have : ¬ (∀ m : Fin n, 0 ≤ m.val → a m = c m) := fun h' => h (funext fun m => h' m (Nat.zero_le _))
+      rw [if_neg h, if_neg this]
+  | succ k ih =>
+    show (rhoTo n (fun i => Xq i) k * proj n (Xq k)) a c = _
+    unfold proj
+    rw [Matrix.mul_smul, Matrix.smul_apply, Matrix.mul_add, Matrix.mul_one, Matrix.add_apply]
+    unfold pauliMat
+    rw [mul_mono_apply, pexp_Xq, iPow_zero, _root_.mul_one, ih (by omega), ih (by omega)]
+    have hkn : k < n := by omega
+    have hflip : ∀ m : Fin n, (flip (Xq k).x c) m = xor (c m) (decide (m.val = k)) := fun m => rfl
+    by_cases h : ∀ m : Fin n, k + 1 ≤ m.val → a m = c m
+    · rw [if_pos h]
+      -- exactly one of `c`, `c ⊕ e_k` agrees with `a` at bit `k`
+      by_cases hb : a ⟨k, hkn⟩ = c ⟨k, hkn⟩
+      · have h1 : ∀ m : Fin n, k ≤ m.val → a m = c m := by
+          intro m hm
+          by_cases e : m.val = k
+          · have : m = ⟨k, hkn⟩ := Fin.ext e
+            rw [this]; exact hb
+          · exact h m (by omega)
+        have h2 : ¬ (∀ m : Fin n, k ≤ m.val → a m = (flip (Xq k).x c) m) := by
+          intro h'
+          have := h' ⟨k, hkn⟩ (Nat.le_refl k)
+          rw [hflip, hb] at this
+          simp at this
+        rw [if_pos h1, if_neg h2, add_zero, smul_eq_mul, pow_succ]
+        ring
+      · have h1 : ¬ (∀ m : Fin n, k ≤ m.val → a m = c m) := fun h' => hb (h' ⟨k, hkn⟩ (Nat.le_refl k))
+        have h2 : ∀ m : Fin n, k ≤ m.val → a m = (flip (Xq k).x c) m := by
+          intro m hm
+          rw [hflip]
+          by_cases e : m.val = k
+          · have : m = ⟨k, hkn⟩ := Fin.ext e
+            subst this
+            simp only [decide_true, Bool.xor_true]
+            cases ha : a ⟨k, hkn⟩ <;> cases hc : c ⟨k, hkn⟩ <;> simp_all
+          · simp [e, h m (by omega)]
+        rw [if_neg h1, if_pos h2, zero_add, smul_eq_mul, pow_succ]
+        ring
+    · rw [if_neg h]
+      have h1 : ¬ (∀ m : Fin n, k ≤ m.val → a m = c m) := fun h' => h (fun m hm => h' m (by omega))
+      have h2 : ¬ (∀ m : Fin n, k ≤ m.val → a m = (flip (Xq k).x c) m) := by
+        intro h'
+        apply h
+        intro m hm
+        have := h' m (by omega)
+        rw [hflip] at this
+        have e : ¬ (m.val = k) := by omega
+        simpa [e] using this
+      rw [if_neg h1, if_neg h2, add_zero, smul_zero]
+
+/-- **the density matrix of the generators `X_0 … X_{n-1}` is `create_n_plus_state(n)`**: every entry `2⁻ⁿ` -/
+theorem rho_plusSTab (n : Nat) : rho n (plusSTab n) = plusMat n := by
+  ext a c
+  show rhoTo n (fun i => Xq i) n a c = _
+  rw [rhoTo_plus n n (Nat.le_refl n) a c, if_pos (fun m hm => absurd m.isLt (by omega))]
+  rfl
+
+/-- **`_graph_to_density_pure(G)` is the graph state**: `create_n_plus_state(n)` conjugated by one CZ per edge of `list(graph.edges)` is
+    `|G⟩⟨G|` (= `ρ(graph_to_stabilizer(G))` = `CZ_E H^{⊗n}|0…0⟩⟨0…0|H^{⊗n}CZ_E`), for every simple graph -/
+theorem graph_to_density_mat (n : Nat) (A : Adj) (hsym : ∀ i j, i < n → j < n → A i j = A j i) (hirr : ∀ i, i < n → A i i = false) :
+    circMat n ((edgesOf n A).map fun e => Gate.CZ e.1 e.2) * plusMat n * (circMat n ((edgesOf n A).map fun e => Gate.CZ e.1 e.2))ᴴ =
+      graphStateMat n A := by
+  have wf : ∀ g, g ∈ (edgesOf n A).map (fun e => Gate.CZ e.1 e.2) → g.WF n :=
+    fun g hg => graphPrep_wf n A g (List.mem_append_right _ hg)
+  have hp : (plusSTab n).Good := ⟨fun _ _ => rfl, fun i k _ _ => by
+    show sp n (Xq i) (Xq k) = false
+    unfold sp; apply parityTo_zero; intro j _; simp [Xq]⟩
+  have hcov := rho_runCircuit (plusSTab n) _ wf
+  have hn0 : (plusSTab n).n = n := rfl
+  rw [hn0, rho_plusSTab] at hcov
+  rw [hcov, ← rho_graphSTab n A hsym hirr]
+  -- the tableau after the CZ gates has the rows of `czEdges`
+  have tr := tracks_runCircuit (plusSTab n) hp _ wf
+  have nR : ((plusSTab n).runCircuit ((edgesOf n A).map fun e => Gate.CZ e.1 e.2)).n = n := runCircuit_n _ _
+  have nC : (czEdges (plusSTab n) (edgesOf n A)).n = n := czEdges_n _ _
+  have rows : ∀ i, i < n → EqOn n (((plusSTab n).runCircuit ((edgesOf n A).map fun e => Gate.CZ e.1 e.2)).row i)
+      ((czEdges (plusSTab n) (edgesOf n A)).row i) := by
+    intro i hi
+    have h1 := runCircuit_row (plusSTab n) _ wf i hi
+    rw [czEdges_row]
+    exact h1
+  have s1 : SpanEq ((plusSTab n).runCircuit ((edgesOf n A).map fun e => Gate.CZ e.1 e.2)) (czEdges (plusSTab n) (edgesOf n A)) := by
+    apply spanEq_of_gens _ _ (nC.trans nR.symm)
+    · intro i hi
+      rw [nC] at hi
+      have := spn_gen ((plusSTab n).runCircuit ((edgesOf n A).map fun e => Gate.CZ e.1 e.2)) i (by rw [nR]; exact hi)
+      refine InSpan.eqv _ _ this ?_
+      rw [nR]; exact rows i hi
+    · intro i hi
+      rw [nR] at hi
+      have := spn_gen (czEdges (plusSTab n) (edgesOf n A)) i (by rw [nC]; exact hi)
+      refine InSpan.eqv _ _ this ?_
+      rw [nC]; exact (rows i hi).symm
+  have s2 := s1.trans (czEdges_edgesOf_spanEq n A hsym hirr)
+  have hgauge := rho_spanEq _ _ s2 tr.good (graphSTab_good n A hsym)
+  rw [nR] at hgauge
+  exact hgauge
+
 /-- **Hilbert-space form of completeness + soundness** (every n ≥ 1, every stabilizer state): the modelled `state_to_graph` returns
     `(G, gates)` and conjugating the density matrix of the input by the unitary of `gates` gives exactly `|G⟩⟨G|` -/
 theorem stateToGraph_hilbert (t : STab) (hn : 0 < t.n) (hg : t.Good) (hi : Indep (XZ.ofSTab t)) :
